@@ -220,6 +220,10 @@ def transplant(ses, rep, fs):
     return flagged
 
 
+# nodes whose outer trivia is replaced wholesale (`expr.update_trailing_trivia(Replace(..))` discards the comments behind the expression)
+NODE_REPLACE_TY = re.compile(r"(^|::)(Expression)$")
+
+
 def replace_obligations(ses, rep, ex, o, P, hv, byoid, triv, full, input_oids, f, pi, fs):
     """R (see transplant): returns (flagged, number of replaced sides looked at)"""
     flagged, n_tok = [], 0
@@ -231,7 +235,7 @@ def replace_obligations(ses, rep, ex, o, P, hv, byoid, triv, full, input_oids, f
             continue
         snap = t[4] if len(t) > 4 else t[2]
         X = deref_val(ex, o.state, snap[0])
-        if not isinstance(X, Lazy) or not TOKEN_TY.search(X.ty.strip()) or not isinstance(t[3], Lazy) or t[3].oid not in full:
+        if not isinstance(X, Lazy) or not (TOKEN_TY.search(X.ty.strip()) or ("{closure" in f.name and "trailing" in last and NODE_REPLACE_TY.search(X.ty.strip()))) or not isinstance(t[3], Lazy) or t[3].oid not in full:
             continue
         X = canonical(ex, byoid, X)
         if not (input_oids & P.of(X)):
@@ -307,8 +311,14 @@ def replace_sites(ses, rep, fs):
     n = 0
     for name, l in sorted(funcs.items()):
         for f in l:
-            if f.kind != "fn" or f.name in visited or SKIP.search(f.name) or "FormatTriviaType::Replace" not in f.text \
-                    or not any(TOKEN_TY.search(t.strip()) or re.search(r"full_moon::|&(Expression|Stmt|Var|Suffix|Prefix)", t) for _, t in f.params):
+            is_closure = "{closure" in f.name and "FormatTriviaType::Replace" in f.text and not re.search(r"^(trivia::|trivia_util::|shape::|context::|verify_ast|sort_requires)|<impl|::promoted\[", f.name)
+            if is_closure and re.search(r"\(_1\.\d+: &mut ", f.text):
+                # the closure writes into a variable it captured by mutable reference: what it reads can leave through that variable,
+                # which this per-function view does not follow (e.g. `trailing_trivia = value.trailing_trivia()...` inside `pair.map(..)`)
+                rep.extra.setdefault("closures_with_captured_writes_skipped", []).append(f.name)
+                continue
+            if not is_closure and (f.kind != "fn" or f.name in visited or SKIP.search(f.name) or "FormatTriviaType::Replace" not in f.text
+                                   or not any(TOKEN_TY.search(t.strip()) or re.search(r"full_moon::|&(Expression|Stmt|Var|Suffix|Prefix)", t) for _, t in f.params)):
                 continue
             # helpers that compute a replacement trivia list from tokens (handle_field_key_equals_comments ..) are followed: the reads happen in there
             ex = ses.executor("lib", fs, inline=lambda n_, fn, me=f: fn is not me and fn.kind == "fn" and "{closure" not in fn.name and "<impl" not in fn.name
@@ -679,6 +689,13 @@ SCENARIOS = {
 SCENARIOS["collapse"] = ["if x then -- c\n\treturn\nend\n", "if x then --[[b]] return end\n", "if x then\n\treturn -- c\nend\n", "if x then\n\tf() -- c\nend\n",
                          "local f = function() -- c\n\treturn 1\nend\n", "local f = function()\n\treturn 1\n\t-- c\nend\n", "local f = function(a -- c\n)\n\treturn 1\nend\n",
                          "local f = function()\n\treturn 1 -- c\nend\n", "if x then\n\tbreak\n\t-- c\nend\n"]
+SCENARIOS["collapse"] += ["if not x then\n\treturn; -- nothing to do\nend\n", "if x then\n\tf(); --[[b]]\nend\n", "while true do\n\tif x then\n\t\tbreak ; -- c\n\tend\nend\n",
+                          "local f = function()\n\treturn 1; -- c\nend\n", "if x then\n\tf() --[[x]] ; -- c\nend\n", "local g = function()\n\tcall() ; --[[ after semi ]]\nend\n"]
+SCENARIOS["multi-value"] = ["local width, height = 0, first_long_operand_name + second_long_operand_name + third_long_operand_name + fourth_long_operand_name_x -- note\n",
+                            "return first_value_name, second_long_operand_name + third_long_operand_name + fourth_long_operand_name + fifth_long_operand_name_xyz -- note\n",
+                            "alpha, beta = 1, first_long_operand_name + second_long_operand_name + third_long_operand_name + fourth_long_operand_name_x_y_z -- note\n",
+                            "local a, b = first_long_operand_name + second_long_operand_name + third_long_operand_name + fourth_long_operand_name_x_y, 2 -- tail\n",
+                            "local a, b = f(function()\n\treturn 1\nend), second_long_operand_name + third_long_operand_name + fourth_long_operand_name_abcdefgh -- tail\n"]
 LUAU_SCENARIOS = {
     "luau-type-declaration": ["type Pair --[[ name ]] <K, V> --[[ generics ]] = { key: K, value: V }\n", "export type Callback --[[ exported ]] <T...> --[[ pack ]] = (T...) -> ()\n",
                               "type Box<T> --[[ after generics ]]\n\t= T\n", "type Wrapped --[[ w1 ]] < --[[ w2 ]] T> = { T }\n", "type Plain<T> --[[ plain ]] = T\n",
@@ -694,7 +711,7 @@ FUNC2SCEN = {"load_token_trivia": ["trivia-lists"], "format_expression_internal"
              "format_table_constructor": ["table"], "format_index": ["index"], "process_dot_name": ["index"], "format_field": ["table"], "remove_condition_parentheses": ["condition"]}
 
 
-GENERIC_GROUPS = ("statements", "functions", "table", "index", "binops", "semicolon", "corpus", "luau-types", "luau-type-declaration")
+GENERIC_GROUPS = ("statements", "functions", "table", "index", "binops", "semicolon", "corpus", "luau-types", "luau-type-declaration", "multi-value", "collapse")
 
 
 def census_battery(names=None):
@@ -710,8 +727,8 @@ def census_battery(names=None):
     if names is None or "corpus" in names:
         progs += [(n_, syn, src) for n_, syn, src in luacorpus.programs("full") if "--" in src]
     for name, syn, src in progs:
-        for cfg in ([], ["--column-width", "40"], ["--column-width", "20"], ["--collapse-simple-statement", "Always"], ["--collapse-simple-statement", "ConditionalOnly"], ["--call-parentheses", "None"],
-                    ["--call-parentheses", "Input"], ["--line-endings", "Windows"]):
+        for cfg in ([], ["--column-width", "40"], ["--column-width", "20"], ["--collapse-simple-statement", "Always"], ["--collapse-simple-statement", "ConditionalOnly"], ["--collapse-simple-statement", "FunctionOnly"],
+                    ["--call-parentheses", "None"], ["--call-parentheses", "Input"], ["--line-endings", "Windows"]):
             r = subprocess.run([binp, "--syntax", syn] + cfg + ["-"], input=src.encode(), capture_output=True, timeout=60)
             if r.returncode != 0:
                 continue
@@ -763,6 +780,12 @@ def run(ses, rep):
             rep.add(oid, st, f"{what}; native: {v}")
         else:
             rep.add(oid, "inconclusive", f"{what}: the comment census shows no lost or created comment on the native build")
+
+
+def fallback(rep):
+    """kernels undecided: the comment census over every scenario group is run; only a lost / created comment is reported"""
+    for name, v, rec in census_battery(None)[:3]:
+        rep.add(f"battery/{name}", rep.violation({"obligation": "battery-after-undecided-kernel", "scenario": name.split("/")[0]}, {"what": "kernel undecided; comment census", "observed": v, **rec}), v)
 
 
 def replay(path):
